@@ -99,6 +99,11 @@ class SymArray(np.ndarray):
     def astype(self, dt, order='K', casting='unsafe', subok=True, copy=True):
         new = real_dtype(dt)
         old = real_dtype(self._fake)
+        if new.kind == 'O':
+            # explicit request for the raw object array (e.g. numpy coercing an operand)
+            return self.view(np.ndarray) if not copy else self.view(np.ndarray).copy()
+        if new.kind not in 'fciub':
+            raise EngineGap('astype(%s) of symbolic data' % new)
         r = np.ndarray.copy(self, order=order if order in 'CFAK' else 'K')
         if new.kind == 'c' and old.kind != 'c':
             rr = r.view(np.ndarray)
@@ -308,6 +313,11 @@ def is_sym(a):
             is_symscalar(v) or isinstance(v, SB) for v in a.ravel()[:8])
     if isinstance(a, (list, tuple)):
         return any(is_sym(v) for v in a)
+    if hasattr(a, 'space'):                     # ODL elements
+        if hasattr(a, 'parts'):
+            return any(is_sym(p) for p in a.parts)
+        d = getattr(a, 'data', None)
+        return isinstance(d, SymArray)
     return False
 
 
